@@ -754,7 +754,89 @@ class Inliner(object):
                 return node
         return [Fill().visit(node) for node in expanded]
 
+    def expr_helpers(self, caller, stmt, stack):
+        """Calls to pure single-expression helpers of the module (return E,
+        possibly after a few local bindings) are replaced by E wherever they
+        occur in the expressions of a simple statement - whatever the number
+        of call sites: they name an expression, not a step."""
+        from .rules import common as K     # expr_of_function
+        inliner = self
+
+        class Expand(ast.NodeTransformer):
+            changed = False
+
+            def visit_Call(self, node):
+                node = self.generic_visit(node)
+                callee = inliner.resolve(caller, node)
+                if callee is None or callee is caller or \
+                        callee.fq in stack or \
+                        callee.name in vocabulary() or \
+                        callee.module is not caller.module or \
+                        inliner.is_vector_helper(callee):
+                    return node
+                raw = callee.raw
+                if raw.decorator_list and any(
+                        ast.unparse(d) not in ('staticmethod',)
+                        for d in raw.decorator_list):
+                    return node
+                if raw.args.vararg or raw.args.kwarg or node.keywords and \
+                        any(k.arg is None for k in node.keywords) or any(
+                            isinstance(a, ast.Starred) for a in node.args):
+                    return node
+                expr = K.expr_of_function(raw)
+                if expr is None or isinstance(expr, ast.IfExp) and \
+                        len(K._fn_body(raw)) > 1:
+                    return node
+                if any(isinstance(n, (ast.Yield, ast.Await, ast.Lambda,
+                                      ast.NamedExpr))
+                       for n in ast.walk(expr)):
+                    return node
+                params = [a.arg for a in raw.args.posonlyargs +
+                          raw.args.args]
+                if params and params[0] in ('self', 'cls') and \
+                        isinstance(node.func, ast.Attribute) and \
+                        callee.cls is not None:
+                    if ast.unparse(node.func.value) != params[0]:
+                        return node
+                    params = params[1:]
+                bound = dict(zip(params, node.args))
+                for kw in node.keywords:
+                    bound[kw.arg] = kw.value
+                defaults = dict(zip(reversed(
+                    [a.arg for a in raw.args.args]),
+                    reversed(raw.args.defaults)))
+                for name in params:
+                    if name not in bound and name in defaults:
+                        bound[name] = defaults[name]
+                if set(bound) != set(params) or \
+                        not all(_simple_arg(a) for a in bound.values()):
+                    return node
+                # free names of E other than parameters must mean the same
+                # thing at the call site: module-level names only
+                free = set(n.id for n in ast.walk(expr)
+                           if isinstance(n, ast.Name)) - set(params)
+                if free & inliner.fn_stored:
+                    return node
+                from . import norm as N
+                new = N.subst(copy.deepcopy(expr), bound)
+                for sub in ast.walk(new):
+                    ast.copy_location(sub, node)
+                Expand.changed = True
+                inliner.inlined.append(callee.fq)
+                return new
+        if isinstance(stmt, (ast.Assign, ast.AugAssign, ast.Expr,
+                             ast.Return)) and stmt.value is not None:
+            for _round in range(2):
+                Expand.changed = False
+                stmt.value = Expand().visit(stmt.value)
+                if not Expand.changed:
+                    break
+        elif isinstance(stmt, (ast.If, ast.While)):
+            stmt.test = Expand().visit(stmt.test)
+        return stmt
+
     def stmt(self, caller, stmt, stack):
+        stmt = self.expr_helpers(caller, stmt, stack)
         if isinstance(stmt, ast.Return) and stmt.value is not None:
             parts = self.desugar_quantifier(stmt)
             if parts is not None:
@@ -810,8 +892,8 @@ class Inliner(object):
             call = stmt.value
             result = stmt.targets[0].id
         elif isinstance(stmt, ast.Assign) and len(stmt.targets) == 1 and \
-                isinstance(stmt.targets[0], (ast.Subscript,
-                                             ast.Attribute)) and \
+                isinstance(stmt.targets[0], (ast.Subscript, ast.Attribute,
+                                             ast.Tuple)) and \
                 isinstance(stmt.value, ast.Call):
             # obj[k] = helper(...)  ->  _r = helper(...) ; obj[k] = _r
             call = stmt.value
